@@ -126,7 +126,8 @@ def build_input(rng, kind, kind2=None):
     avail = Intermediates().available
     if kind == "product":
         name = rng.choice(["t2_1", "t2_1", "t1_2", "t2_2", "p0_2_oo", "p0_2_vv", "t2eri_3",
-                           "t2eri_4", "t2eri_5", "t2sq", "t2eri_1", "t2eri_A"])
+                           "t2eri_4", "t2eri_5", "t2sq", "t2eri_1", "t2eri_A", "p0_3_oo", "p0_3_vv",
+                           "t2eri_2", "t2eri_6", "t2eri_7", "t2eri_B"])
         it = avail[name]
         idx = list(it.default_idx)
         # rename the indices of the intermediate
